@@ -12,7 +12,7 @@ import sys
 import time
 
 V = os.path.dirname(os.path.dirname(os.path.abspath(__file__)))
-WT = "/tmp/verif-seed-wt"
+WT = os.environ.get("VERIF_SEED_WT", "/tmp/verif-seed-wt")
 
 
 def sh(cmd, **kw):
